@@ -361,7 +361,7 @@ Section Laid.
 
   Lemma local_piece_gen (f : exp -> tT) (c : exp -> tC) : forall es (pl : list (list N * loc)) cA c0 B lastc il st,
     PieceE W (apply_all (map f es)) (cl_all (map (fun e => (f e, c e)) es)) c0 B ->
-    chain W c0 (flat_map m_exp es) B -> (length es <= length pl)%nat ->
+    chain W c0 (flat_map m_exp es) B ->
     (forall p, In p pl -> idok W (snd p) /\ hi W (snd p) <= c0) ->
     InReg W lastc cA c0 -> cA <= c0 ->
     match il with Some i => colok W i /\ hi W i <= B | None => True end ->
@@ -369,10 +369,10 @@ Section Laid.
     cl_local_loop (map (fun e => (e, f e, c e)) es) pl st = true /\
     EvoS W cA B (vss st) (vss (local_loop (map (fun e => (e, f e)) es) pl lastc il st)).
   Proof.
-    intros es pl cA c0 B lastc il st HP Hx Hlen Hp Hlast HcA Hil Hne Hg.
+    intros es pl cA c0 B lastc il st HP Hx Hp Hlast HcA Hil Hne Hg.
     pose proof (chain_le W _ _ _ Hx) as HcB.
     destruct (HP st Hne Hg) as [P1 P2].
-    rewrite (cl_local_loop_shape f c es pl st Hlen), (local_loop_shape f es pl lastc il st Hlen), local_adds_fold.
+    rewrite (cl_local_loop_shape f c es pl st), (local_loop_shape f es pl lastc il st), local_adds_fold.
     split; [exact P1|].
     destruct (vss st) as [|vs r] eqn:E; [contradiction|].
     pose proof (Evo_widen W _ _ _ _ _ _ P2 HcA (Z.le_refl B)) as P2'.
@@ -400,7 +400,7 @@ Section Laid.
 
   Lemma local_piece flv : forall es (pl : list (list N * loc)) cA c0 B lastc il st,
     Forall Pe es -> forallb frag_exp es = true -> forallb tb_shp_exp es = true -> forallb (nfs_exp nm) es = true ->
-    chain W c0 (flat_map m_exp es) B -> (length es <= length pl)%nat ->
+    chain W c0 (flat_map m_exp es) B ->
     (forall p, In p pl -> idok W (snd p) /\ hi W (snd p) <= c0) ->
     InReg W lastc cA c0 -> cA <= c0 ->
     match il with Some i => colok W i /\ hi W i <= B | None => True end ->
@@ -408,9 +408,9 @@ Section Laid.
     cl_local_loop (map (fun e => (e, tr_exp flv e, cl_exp nm flv e)) es) pl st = true /\
     EvoS W cA B (vss st) (vss (local_loop (map (fun e => (e, tr_exp flv e)) es) pl lastc il st)).
   Proof.
-    intros es pl cA c0 B lastc il st He Hf Hs Hn Hx Hlen Hp Hlast HcA Hil Hne Hg.
+    intros es pl cA c0 B lastc il st He Hf Hs Hn Hx Hp Hlast HcA Hil Hne Hg.
     exact (local_piece_gen (fun e => tr_exp flv e) (fun e => cl_exp nm flv e) es pl cA c0 B lastc il st
-                           (exps_piece flv es c0 B He Hf Hs Hn Hx) Hx Hlen Hp Hlast HcA Hil Hne Hg).
+                           (exps_piece flv es c0 B He Hf Hs Hn Hx) Hx Hp Hlast HcA Hil Hne Hg).
   Qed.
 
   Lemma stats_piece flv slv : forall ss a b,
